@@ -45,6 +45,8 @@ static void *main_fake_stack;
 static const void *main_stack_bottom; static size_t main_stack_size;
 static uint64_t (*state_fn)(void);
 int vp_sched_active;
+int vp_blocked_switch_cost;  /* 1: when the running coroutine blocks, taking any but the first enabled one counts as a deviation */
+int vp_free_yield_cost;     /* 1: switching away at a voluntary yield point counts as a deviation too (context bounding) */
 int vp_sync_points = 1;      /* lock/unlock/trylock are scheduling points (switch off where locks are never contended) */
 void (*vp_atomic_hook)(const volatile void *addr, int is_store, int mo);
 int (*vp_access_filter)(const volatile void *addr, int size, int is_write);
@@ -64,7 +66,7 @@ void vp_sched_reset(void)
 {
 	int i;
 	for (i = 0; i < VP_MAXCO; i++) { CO[i].st = CO_FREE; CO[i].local = 0; CO[i].ready = NULL; }
-	nco = 0; cur = -1; aborted = 0; vp_sched_active = 0; vp_sync_points = 1;
+	nco = 0; cur = -1; aborted = 0; vp_sched_active = 0; vp_sync_points = 1; vp_free_yield_cost = 0; vp_blocked_switch_cost = 0;
 	vp_sync_reset();
 }
 
@@ -164,7 +166,7 @@ again:
 		for (i = 0; i < nco; i++) if (CO[i].st == CO_BLOCKED) l += snprintf(msg + l, sizeof msg - l, " %s waits for %s;", CO[i].name, CO[i].blocked_on);
 		vp_fail("deadlock: no coroutine can run:%s", msg);
 	}
-	c = n > 1 ? vp_cost_choose(n, self_enabled ? cost_if_self_enabled : 0, tag) : 0;
+	c = n > 1 ? vp_cost_choose(n, self_enabled ? cost_if_self_enabled : vp_blocked_switch_cost, tag) : 0;
 	if (CO[en[c]].st == CO_BLOCKED) CO[en[c]].st = CO_RUNNABLE;
 	if (en[c] != self) {
 		if (vp_tracing) vp_logf("    -> switch to %s", CO[en[c]].name);
@@ -180,7 +182,7 @@ void vp_point(const char *tag)
 void vp_yield_free(const char *tag)
 {
 	if (cur < 0 || !vp_sched_active) return;
-	reschedule(0, tag);
+	reschedule(vp_free_yield_cost, tag);
 }
 
 void vp_block(int (*ready)(void *), void *arg, const char *what)
@@ -215,7 +217,7 @@ void vp_co_exit(void)
 		}
 		if (n == 0) switch_to(-1);
 		else {
-			c = n > 1 ? vp_cost_choose(n, 0, "next after exit") : 0;
+			c = n > 1 ? vp_cost_choose(n, vp_blocked_switch_cost, "next after exit") : 0;
 			if (CO[en[c]].st == CO_BLOCKED) CO[en[c]].st = CO_RUNNABLE;
 			switch_to(en[c]);
 		}
